@@ -304,6 +304,10 @@ class CounterToken(Token, FileSystemEventHandler):
         except FileNotFoundError:
             # We did not find the token file... just ignore
             pass
+        except ValueError:
+            # The token file has been created by another process but is not
+            # written yet: a "modified" event will follow
+            logger.debug("Token file %s is not complete yet", path)
         except Exception:
             logger.exception("Uncaught exception in on_modified handler")
             raise
@@ -354,6 +358,9 @@ class CounterToken(Token, FileSystemEventHandler):
                         except FileNotFoundError:
                             # Well, the file did not exist anymore...
                             pass
+                        except ValueError:
+                            # ... or is not completely written yet
+                            logger.debug("Token file %s is not complete yet", path)
         except Exception:
             logger.exception("Uncaught exception in on_modified handler")
             raise
